@@ -84,15 +84,16 @@ impl Five {
     #[allow(clippy::comparison_chain)]
     pub fn find_in_products(key: usize) -> usize {
         let mut low = 0;
-        let mut high = 4887;
+        let mut high = crate::lookups::PRODUCTS.len();
         let mut mid;
 
-        while low <= high {
+        // Search the half-open range [low, high) so that the bounds can never underflow.
+        while low < high {
             mid = (high + low) >> 1; // divide by two
 
             let product = crate::lookups::PRODUCTS[mid] as usize;
             if key < product {
-                high = mid - 1;
+                high = mid;
             } else if key > product {
                 low = mid + 1;
             } else {
@@ -103,7 +104,13 @@ impl Five {
     }
 
     fn not_unique(&self) -> HandRankValue {
-        crate::lookups::VALUES[Five::find_in_products(self.multiply_primes())]
+        let key = self.multiply_primes();
+        let index = Five::find_in_products(key);
+        // An index of 0 is also the "not found" signal, so confirm the hit.
+        if crate::lookups::PRODUCTS[index] as usize != key {
+            return crate::hand_rank::NO_HAND_RANK_VALUE;
+        }
+        crate::lookups::VALUES[index]
     }
 
     #[allow(clippy::cast_possible_truncation)]
